@@ -363,7 +363,7 @@ def weave_kani(repo, out, uses=(), active=()):
             txt = open(os.path.join(kdir, fn)).read()
             open(os.path.join(crate, 'src', fn), 'w').write(strip_inactive_contract_harnesses(txt, set(active)))
             with open(target, 'a') as f:
-                f.write('\n#[cfg(kani)]\n#[path = "%s"]\nmod verif;\n' % fn)
+                f.write('\n#[cfg(kani)]\n#[path = "%s"]\npub(crate) mod verif;\n' % fn)
             meta['appended_modules'].append(fn)
     shutil.copy(os.path.join(kdir, 'vspec.rs'), os.path.join(crate, 'src', 'vspec.rs'))
     with open(os.path.join(crate, 'src', 'lib.rs'), 'a') as f:
